@@ -34,7 +34,7 @@ import numpy as np
 
 from ..cert import DM, frac_json, py_psd_cert
 from ..common import InfraError
-from ..exact import Pure, call_rng, describe, present_nd
+from ..exact import Pure, call_rng, describe, present_nd, strict_fp_call
 from ..pool import Result, fold, run_pool, worker_driver
 from .. import qgen
 
@@ -56,7 +56,12 @@ RULE = ("states on dA (x) dB, dA,dB in 2..4 (unequal allowed), from the seeded g
         "presentation: every call of is_ppt / is_npt / is_separable / in_separable_ball / has_symmetric_extension / partial_transpose / swap receives the same values in a "
         "freshly drawn presentation (C / Fortran / strided memory layout; real-valued matrices as float64, integer-valued ones also as int64); the array handed over "
         "must be untouched afterwards; is_ppt, in_separable_ball and (dA*dB <= 6, first dim form) is_separable are called a second time on the same object and must "
-        "return the same verdict.")
+        "return the same verdict. "
+        "strict-fp: is_ppt / is_npt (sys 1, 2), in_separable_ball (matrix, spectrum, zero matrix, rescaled), is_separable (dA*dB <= 6, pure states and pure product states on "
+        "larger systems; only when the default call is decided before the symmetric-extension search) and has_symmetric_extension (level 1, PPT shortcut, two-qubit analytic "
+        "formula; never the SDP statement) on pure product states, 1-2 term mixtures, the maximally mixed state, pure entangled states, |0><0| and isotropic / Werner states at "
+        "the end points and the PPT threshold are evaluated a second time with NumPy's error state set to raise for invalid / divide / overflow (harness.exact.strict_fp_call) "
+        "and must return the verdict of the default state (the functions of this property take one array argument: there is no two-role call).")
 ASSUMPTIONS = [
     "the float matrix handed to toqito differs from the exact rational mixture it was built from by <= 4e-15 entrywise (checked on every instance against the Lean sepMix); "
     "'separable by construction' refers to that exact mixture",
@@ -1563,7 +1568,73 @@ def work_symext_witness(task, res: Result):
                        "impl": fails, "model": "all constraints hold", "theorem": "separable_has_symmetric_extensions"})
 
 
-WORK = {"ppt": work_ppt, "pt_tie": work_pt_tie, "sep": work_sep, "ball": work_ball, "symext": work_symext, "criteria": work_criteria, "choi_tie": work_choi_tie,
+def strict_insts(rng):
+    """rank-deficient / pure / boundary instances of the strict-fp stream: fixed ones first, seeded ones from the child generator handed in"""
+    out = []
+    for d in (2, 3, 4):
+        for p in (Fraction(0), Fraction(1, d + 1), Fraction(1)):
+            out.append({"family": "isotropic-end", "dA": d, "dB": d, "rho": gen_isotropic(d, p), "meta": {"p": str(p)}})
+        for q in (Fraction(0), Fraction(1, 2), Fraction(1)):
+            out.append({"family": "werner-end", "dA": d, "dB": d, "rho": gen_werner(d, q), "meta": {"q": str(q)}})
+    for (dA, dB) in DIMS_ALL:
+        e = np.zeros(dA * dB)
+        e[0] = 1
+        out.append({"family": "e0", "dA": dA, "dB": dB, "rho": np.outer(e, e)})
+        out.append(dict(gen_sepmix(rng, dA, dB, 1, False, mix_id=(1, 1)), family="maxmixed"))
+        for cplx in (False, True):
+            out.append(dict(gen_sepmix(rng, dA, dB, 1, cplx), family="pure-product"))
+            out.append(gen_sepmix(rng, dA, dB, 2, cplx))
+        out.append({"family": "pure-entangled", "dA": dA, "dB": dB, "rho": gen_entangled_pure(rng, dA, dB, True)})
+    return out
+
+
+def work_strict(task, res: Result):
+    """each verdict once in the default floating-point error state and once under StrictFP: same outcome"""
+    from toqito.state_props import has_symmetric_extension, in_separable_ball, is_npt, is_ppt, is_separable
+    warnings.filterwarnings("ignore")
+    inst = task["inst"]
+    rho, dA, dB, fam = inst["rho"], inst["dA"], inst["dB"], inst["family"]
+
+    def both(name, fn, args, tag, default=None):
+        if default is None:
+            try:
+                default = ("ok", bool(fn(*[a.copy() if isinstance(a, np.ndarray) else a for a in args])))
+            except Exception as e:  # the outcome of the default state
+                default = ("raise", type(e).__name__)
+        st, v = strict_fp_call(fn, *[a.copy() if isinstance(a, np.ndarray) else a for a in args])
+        strict = ("ok", bool(v)) if st == "ok" else ("raise", v.split(":")[0])
+        res.case({"fn": name + "/strict-fp", "tag": tag, "dA": dA, "dB": dB, "rho": digest(rho)}, True, f"strict-fp/{name}")
+        if strict != default:
+            what = "value depends on NumPy's floating-point error state" if (st == "raise" and default[0] == "ok") else "outcome differs under StrictFP"
+            res.violation(f"{name}: {what}: default state {default}, invalid/divide/overflow='raise' gives {(st, v)} ({fam} {dA}x{dB}, {tag})",
+                          {"function": name, "kind": "strict-fp", "args": {"family": fam, "dA": dA, "dB": dB, "rho": rho, "call": tag, "meta": inst.get("meta")},
+                           "impl": [list(default), [st, str(v)]], "model": "equal", "dA": dA, "dB": dB})
+
+    for sys_ in (1, 2):
+        both("is_ppt", is_ppt, (rho, sys_, [dA, dB]), f"sys={sys_}")
+    both("is_npt", is_npt, (rho, 2, [dA, dB]), "sys=2")
+    for tag, M in (("matrix", rho), ("eig", np.linalg.eigvalsh(rho)), ("zero", 0 * rho), ("scaled", rho * 1e-3)):
+        both("in_separable_ball", in_separable_ball, (M,), tag)
+    if dA * dB <= 6 or fam in ("e0", "pure-product", "pure-entangled"):
+        out, branch, exc = observed_call("is_separable", rho.copy(), [dA, dB])
+        if branch in EARLY_SEP:
+            both("is_separable", is_separable, (rho, [dA, dB]), branch, default=("ok", out) if isinstance(out, bool) else ("raise", out.split(":")[1]))
+        else:
+            res.count(f"strict-fp/is_separable-skipped/{branch}")
+    for level, ppt in ((1, True), (1, False), (2, True), (2, False)):
+        if not (level == 1 or (dA * dB <= 6 and ppt) or (dA, dB) == (2, 2)):
+            continue
+        out, branch, exc = observed_call("has_symmetric_extension", rho.copy(), level, [dA, dB], ppt)
+        if branch in ("analytic-2qubit", "level1-no-ppt", "ppt-shortcut"):
+            both("has_symmetric_extension", has_symmetric_extension, (rho, level, [dA, dB], ppt), f"level={level},ppt={ppt},{branch}",
+                 default=("ok", out) if isinstance(out, bool) else ("raise", out.split(":")[1]))
+        else:
+            res.count(f"strict-fp/symext-skipped/{branch}")
+
+
+EARLY_SEP = ("ppt-reject", "ppt-sufficient", "realignment", "zhang", "2xn-spectrum", "2xn-hankel", "2xn-homothetic", "2xn-lemma1", "rank4-3x3", "ball", "rank1-perturbation",
+             "op-schmidt-rank")
+WORK = {"strict": work_strict, "ppt": work_ppt, "pt_tie": work_pt_tie, "sep": work_sep, "ball": work_ball, "symext": work_symext, "criteria": work_criteria, "choi_tie": work_choi_tie,
         "ha_probe": work_ha_probe, "symext_witness": work_symext_witness}
 
 
@@ -1813,6 +1884,9 @@ def run(ctx, model_ok=True):
     prs = rng.spawn(1)[0]   # presentation stream: a child of the seeded generator (spawning does not consume the parent's draws)
     for t in tasks:
         t["pres"] = int(prs.integers(1, 2 ** 31))
+    # ---- (vi) strict-fp stream (second child of the seeded generator: the streams above and the presentation stream do not shift)
+    for inst in strict_insts(rng.spawn(1)[0]):
+        T("strict", inst=inst)
     tasks.sort(key=lambda t: -weight(t))
     run_pool(ctx, work, tasks)
     br = {k: v for k, v in ctx.hist.items() if k.startswith("is_separable-branch/")}
@@ -1846,7 +1920,9 @@ def replay(ctx, rec):
     a = rec["args"]
     fn = rec["function"]
     res = Result()
-    if fn in ("is_ppt", "is_npt"):
+    if rec.get("kind") == "strict-fp":
+        work_strict({"inst": {"family": a.get("family", "replay"), "dA": a["dA"], "dB": a["dB"], "rho": _arr(a["rho"]), "meta": a.get("meta")}, "model_ok": True}, res)
+    elif fn in ("is_ppt", "is_npt"):
         inst = {"family": a.get("family", "replay"), "dA": a["dA"], "dB": a["dB"], "rho": _arr(a["rho"]), "sep": None, "terms": None, "cplx": True, "meta": a.get("meta")}
         work_ppt({"inst": inst, "calls": [(a["sys"], a["dim_form"], a["tol"])], "model_ok": True, "pres": a.get("pres")}, res)
     elif fn == "is_separable" and rec.get("kind") == "invariance":
